@@ -38,6 +38,7 @@ def run(ctx):
     def per_case(case, res):
         if res["status"] == "ok":
             orc.oracle_c03(ctx, case, res, fp.failer(ctx, case))
+            orc.oracle_rule_history(ctx, case, res, fp.failer(ctx, case, prefix="[the rule the update calls selected] "))
     def gen(rng, i):
         # every 5th case: a constant shared by several operators (one tensor with 2..3 consumers, tied embedding table, one buffer
         # behind several tensors) x per-consumer rules: each consumer must run in ITS mode or the recipe must be refused
